@@ -47,8 +47,9 @@ def observe(c):
     def V(clause, detail, **extra):
         a = dict(at)
         a.update(extra)
-        out.append(Violation(PROP, clause, case, a, detail, replay=c))
+        out.append(Violation(PROP, clause, case_name[0], a, detail, replay=c))
 
+    case_name = [case]
     spec = spectralfam.spectrum(c)
     if not at["simple"] or spectralfam.eig_condition(spec) > 10:
         return []
@@ -66,7 +67,17 @@ def observe(c):
     Dn = build.mat_to_np(c["dense"])
     tdt = opsfam.tol_dt(c)
     single = tdt in ("f32", "c64")
-    scale = max(1.0, float(np.max(np.abs(lams))))
+    sc = c.get("_scale")
+    if sc is not None:
+        # the same dense operator multiplied by a power of ten: eig(c A) = c eig(A) exactly; all tolerances follow
+        # the scale of the operator (no absolute floor), so stopping rules with absolute thresholds are exposed
+        inner = t["a"][0] if t["k"] == "Annot" else t
+        As = cola.ops.Dense(np.asarray(build.build(inner).A) * sc)
+        A = build.ANN[t["p"]["ann"]](As) if t["k"] == "Annot" else As
+        lams, Dn = lams * sc, Dn * sc
+        case_name[0] = f"{sc:g} * {case}"
+        at["op_scale"] = f"{sc:g}"
+    scale = max(1.0 if sc is None else 0.0, float(np.max(np.abs(lams))))
     order = np.argsort(np.abs(lams))
     dominant_ok = bool(at["real_spectrum"] and (n == 1 or mags[-2] / mags[-1] <= 0.8))
     at["definite"] = bool(at["real_spectrum"] and (np.all(lams.real > 0) or np.all(lams.real < 0)))
@@ -166,6 +177,11 @@ def run(tier):
     if tier == "quick" and len(cases) > 2500:
         step = max(1, len(cases) // 2500)
         cases = cases[common.seed() % step::step]
+    # scaled copies of the dense leaves (tiny and large norms)
+    scaled = [dict(c, _scale=f) for c in cases
+              if (c["t"]["k"] == "Dense" or (c["t"]["k"] == "Annot" and c["t"]["a"][0]["k"] == "Dense"))
+              and opsfam.tol_dt(c) in ("f64", "c128") for f in (1e-6, 1e5)]
+    cases = cases + scaled
     res = common.pmap(observe, cases, chunksize=4)
     viol = [v for r in res for v in r]
     nontriv = {json.dumps(c["t"], sort_keys=True) for c in cases if opsfam.nontrivial(c)}
